@@ -161,6 +161,11 @@ def verify(obj, nan_pairs=(), check_desc=True, rdm_desc=None, pat_desc=None):
     return errs
 
 
+def _strip(d):
+    """descriptor dict without the library-managed 'index' entry"""
+    return {k: (list(v) if not isinstance(v, list) else v) for k, v in d.items() if k != 'index'}
+
+
 def canon(obj):
     """canonical, hashable abstraction of an RDMs state: id orders, NaN mask of non-copy pairs,
     container kind and element type of every descriptor (operations branch on these)"""
